@@ -1,8 +1,117 @@
-//! state-machine level operations of the mini node (filled in by the C01/C07 work)
+//! state-machine level operations of the mini node: canonical dump of the served state
+//! through the public query messages of the component actors (C01, C07, C08, C19).
+use actix::prelude::*;
 use rnacos::common::appdata::AppShareData;
-use serde_json::Value;
+use rnacos::config::config_index::ConfigQueryParam;
+use rnacos::config::core::{ConfigCmd, ConfigKey, ConfigResult};
+use rnacos::config::dal::ConfigHistoryParam;
+use rnacos::namespace::model::{NamespaceQueryReq, NamespaceQueryResult};
+use rnacos::raft::db::table::{TableManagerQueryReq, TableManagerResult};
+use rnacos::sequence::core::SequenceDbManager;
+use serde_json::{json, Map, Value};
 use std::sync::Arc;
 
-pub async fn exec(_app: &Arc<AppShareData>, name: &str, _op: &Value) -> anyhow::Result<Value> {
-    Err(anyhow::anyhow!("unknown op {}", name))
+fn hexs(b: &[u8]) -> String {
+    match std::str::from_utf8(b) {
+        Ok(s) if s.chars().all(|c| !c.is_control()) => s.to_string(),
+        _ => b.iter().map(|x| format!("{:02x}", x)).collect::<Vec<_>>().join(""),
+    }
+}
+
+/// Everything a node serves for configs, namespaces, tables (users), sequences.
+pub async fn dump(app: &Arc<AppShareData>) -> anyhow::Result<Value> {
+    // ---- configs: complete listing, then GET + history of every listed key
+    let param = ConfigQueryParam {
+        tenant: None,
+        group: None,
+        data_id: None,
+        like_group: None,
+        like_data_id: None,
+        namespace_privilege: Default::default(),
+        query_context: true,
+        offset: 0,
+        limit: 1_000_000,
+    };
+    let mut cfg = Map::new();
+    let mut listing_total = 0usize;
+    if let ConfigResult::ConfigInfoPage(total, list) = app.config_addr.send(ConfigCmd::QueryPageInfo(Box::new(param))).await?? {
+        listing_total = total;
+        for it in list {
+            let key = ConfigKey::new(it.data_id.as_str(), it.group.as_str(), it.tenant.as_str());
+            let mut entry = Map::new();
+            entry.insert("listed_md5".into(), json!(it.md5.as_ref().map(|s| s.as_str().to_string())));
+            match app.config_addr.send(ConfigCmd::GET(key.clone())).await?? {
+                ConfigResult::Data { value, md5, config_type, desc, .. } => {
+                    entry.insert("content".into(), json!(value.as_str()));
+                    entry.insert("md5".into(), json!(md5.as_str()));
+                    entry.insert("md5_ok".into(), json!(rnacos::utils::get_md5(value.as_str()) == *md5.as_str()));
+                    entry.insert("type".into(), json!(config_type.map(|s| s.as_str().to_string())));
+                    entry.insert("desc".into(), json!(desc.map(|s| s.as_str().to_string())));
+                }
+                _ => {
+                    entry.insert("content".into(), Value::Null);
+                }
+            }
+            let hp = ConfigHistoryParam {
+                id: None,
+                data_id: Some(it.data_id.as_str().to_string()),
+                group: Some(it.group.as_str().to_string()),
+                tenant: Some(it.tenant.as_str().to_string()),
+                order_by: None,
+                order_by_desc: None,
+                limit: Some(100000),
+                offset: Some(0),
+            };
+            if let ConfigResult::ConfigHistoryInfoPage(n, hl) = app.config_addr.send(ConfigCmd::QueryHistoryPageInfo(Box::new(hp))).await?? {
+                let mut h: Vec<Value> = hl.iter().map(|d| json!({"id": d.id, "content": d.content})).collect();
+                h.reverse(); // oldest first
+                entry.insert("hist".into(), Value::Array(h));
+                entry.insert("hist_total".into(), json!(n));
+            }
+            cfg.insert(format!("{}|{}|{}", it.tenant, it.group, it.data_id), Value::Object(entry));
+        }
+    }
+    // ---- namespaces
+    let mut ns = Map::new();
+    if let NamespaceQueryResult::List(list) = app.namespace_addr.send(NamespaceQueryReq::List).await?? {
+        for n in list {
+            ns.insert(n.namespace_id.as_str().to_string(), json!({"name": n.namespace_name, "flag": n.flag}));
+        }
+    }
+    // ---- tables
+    let mut tables = Map::new();
+    if let TableManagerResult::TableNames(names) = app.raft_table_manage.send(TableManagerQueryReq::QueryTableNames).await?? {
+        let mut names: Vec<Arc<String>> = names;
+        names.sort();
+        for name in names {
+            let mut t = Map::new();
+            if let TableManagerResult::PageListResult(_, list) = app
+                .raft_table_manage
+                .send(TableManagerQueryReq::QueryPageList { table_name: name.clone(), like_key: None, offset: None, limit: None, is_rev: false })
+                .await??
+            {
+                for (k, v) in list {
+                    t.insert(hexs(&k), json!(hexs(&v)));
+                }
+            }
+            tables.insert(name.as_str().to_string(), Value::Object(t));
+        }
+    }
+    // ---- sequences (hook: SequenceDbManager has no query message)
+    let mut seq = Map::new();
+    let sdb: Addr<SequenceDbManager> = app.sequence_db_manager.clone();
+    for (k, v) in sdb.send(rnacos::verif_hooks::DumpSequences).await? {
+        seq.insert(k, json!(v));
+    }
+    Ok(json!({"cfg": cfg, "listing_total": listing_total, "ns": ns, "tables": tables, "seq": seq}))
+}
+
+pub async fn exec(app: &Arc<AppShareData>, name: &str, _op: &Value) -> anyhow::Result<Value> {
+    match name {
+        "dump" => {
+            let d = dump(app).await?;
+            Ok(json!({"res":"ok","dump":d}))
+        }
+        _ => Err(anyhow::anyhow!("unknown op {}", name)),
+    }
 }
